@@ -2,7 +2,6 @@
 #include "world.hh"
 #include "profiles.hh"
 namespace vsim {
-void register_bdd_ops() {}
 void register_mtbdd_ops() {}
 void register_text_ops() {}
 void register_corpus_ops() {}
